@@ -51,6 +51,11 @@ pub struct C05Case {
 	pub cmd: u8,
 	pub exit_after: u16,
 	pub changes: Vec<Pos>,
+	/// a forwarded signal (HUP, as the signal source would deliver it) lands in the same debounce window as
+	/// the change, right before it — only where it cannot disturb the command: while nothing runs, or
+	/// (restart mode) when the command ignores signals
+	#[serde(default)]
+	pub with_signal: bool,
 }
 
 fn mono_ns() -> u128 {
@@ -198,7 +203,15 @@ pub fn run(c: &C05Case) -> Outcome {
 			let ev = change_event(n);
 			let runs_seen = parse_runs(&logs).0.len();
 			let wx = wx.clone();
+			let sig_first = c.with_signal && (class == "idle" || (cmdk == 2 && mode == 2));
 			async move {
+				if sig_first {
+					let sig = Event {
+						tags: vec![Tag::Source(Source::Os), Tag::Signal(Signal::Hangup)],
+						metadata: Default::default(),
+					};
+					let _ = wx.send_event(sig, Priority::High).await;
+				}
 				let before = mono_ns();
 				let r = wx.send_event(ev, Priority::Normal).await;
 				let after = mono_ns();
@@ -528,8 +541,9 @@ fn strategy() -> BoxedStrategy<C05Case> {
 		prop_oneof![3 => Just(0u8), 2 => Just(1u8), 2 => Just(2u8)],
 		prop_oneof![Just(450u16), Just(900), Just(1300)],
 		proptest::collection::vec(pos, 1..5),
+		proptest::bool::weighted(0.3),
 	)
-		.prop_map(|(mode, shorthand, stop_signal, stop_timeout, delay_run, debounce, cmd, exit_after, changes)| C05Case {
+		.prop_map(|(mode, shorthand, stop_signal, stop_timeout, delay_run, debounce, cmd, exit_after, changes, with_signal)| C05Case {
 			mode,
 			shorthand,
 			stop_signal,
@@ -539,6 +553,7 @@ fn strategy() -> BoxedStrategy<C05Case> {
 			cmd,
 			exit_after,
 			changes,
+			with_signal,
 		});
 	// the command exits by itself while the handler is still in its --delay-run sleep: the busy
 	// check and the restart / queue control then race with the collection of the exit
@@ -552,6 +567,7 @@ fn strategy() -> BoxedStrategy<C05Case> {
 		cmd: 0,
 		exit_after,
 		changes: vec![Pos::ExitDuringDelay; n],
+		with_signal: false,
 	});
 	prop_oneof![4 => general, 1 => racy].boxed()
 }
